@@ -1089,7 +1089,14 @@ Proof.
   destruct (requeue_sends ch a).
   - destruct (send_fresh_shape _ _ _ _ _ _ _ Hwf H) as (Hsh & Hcfg).
     split; [apply (fresh_shape_key _ _ _ _ _ Hsh)|]. apply (fresh_accept m ch _ _ ch' obs Hwf Hag Hsh Hcfg).
-  - injection H as <- <-. split; [reflexivity|]. split; [|exact Hag]. destruct (at_probe a); reflexivity.
+  - destruct (at_probe a).
+    + injection H as <- <-. cbn [ch_servers set_servers].
+      pose proof (clear_probe_key (at_server a) (ch_servers ch)) as Hck.
+      split; [exact Hck|]. split; [reflexivity|].
+      destruct Hag as (Hrot & Hnd & Hk). split; [exact Hrot|]. split; [exact Hnd|].
+      intros b. rewrite Hk. symmetry. apply kv_key; [|exact Hck].
+      apply (nodup_addr_key (ch_servers ch)); [symmetry; exact Hck|apply (wf_addr _ Hwf)].
+    + injection H as <- <-. split; [reflexivity|]. split; [reflexivity|exact Hag].
 Qed.
 
 Lemma fail_attempt_sound ch a status c ch' obs m :
@@ -1182,7 +1189,7 @@ Qed.
 (* what each event does to the table, C09_accounting *)
 Definition accounting (ch : chan) (ev : event) (ch' : chan) : Prop :=
   match ev with
-  | EvSend _ | EvAdvance _ => forall b, kv b (ch_servers ch') = kv b (ch_servers ch)
+  | EvSend _ | EvAdvance _ | EvCancel => forall b, kv b (ch_servers ch') = kv b (ch_servers ch)
   | EvAnswer label =>
     forall a, find_attempt label (ch_inflight ch) = Some a -> kv_after_good (at_server a) (ch_servers ch) (ch_servers ch')
   | EvRefuse label _ _ | EvTimeout label _ =>
@@ -1191,6 +1198,16 @@ Definition accounting (ch : chan) (ev : event) (ch' : chan) : Prop :=
     (forall b, kv b (ch_servers ch') = expected (ch_servers ch) b 0 (dedup [] addrs)) /\
     Permutation (map sv_addr (ch_servers ch')) (dedup [] addrs)
   end.
+
+Lemma fold_clear_probe_key : forall (atts : list attempt) l,
+  map key (fold_left (fun acc a => if at_probe a then clear_probe (at_server a) acc else acc) atts l) = map key l.
+Proof.
+  induction atts as [|a r IH]; intros l; [reflexivity|]. cbn [fold_left]. rewrite IH.
+  destruct (at_probe a); [apply clear_probe_key|reflexivity].
+Qed.
+
+Lemma mon_run_dones m l : mon_run m (map (fun a => ODone (at_label a) ARES_ECANCELLED) l) = Some m.
+Proof. induction l as [|a r IH]; [reflexivity|]. cbn [map mon_run mon_step]. exact IH. Qed.
 
 Lemma requeue_all_sound : forall vs ch cs n ch' obs m,
   wf (ch_servers ch) -> agree m ch -> requeue_all ch vs cs n = Ok (ch', obs) ->
@@ -1215,7 +1232,7 @@ Lemma step_sound ch ev ch' obs m :
   wf (ch_servers ch) -> agree m ch -> step ch ev = Ok (ch', obs) ->
   wf (ch_servers ch') /\ accounting ch ev ch' /\ exists m', mon_run m obs = Some m' /\ agree m' ch'.
 Proof.
-  intros Hwf Hag H. destruct ev as [c|label|label status c|label c|ms|addrs cs]; cbn [step] in H.
+  intros Hwf Hag H. destruct ev as [c|label|label status c|label c|ms| |addrs cs]; cbn [step] in H.
   - (* EvSend *)
     destruct (Nat.eqb (length (ch_servers ch)) 0).
     + injection H as <- <-. split; [exact Hwf|]. split; [intros b; reflexivity|].
@@ -1245,6 +1262,16 @@ Proof.
     destruct (c_timeadd ms (fst (ch_now ch)) (snd (ch_now ch))) as [t| |]; cbn [bind] in H; try discriminate.
     injection H as <- <-. split; [exact Hwf|]. split; [intros b; reflexivity|].
     exists m. split; [reflexivity|exact Hag].
+  - (* EvCancel *)
+    injection H as <- <-. cbn [ch_servers set_inflight set_servers].
+    pose proof (fold_clear_probe_key (ch_inflight ch) (ch_servers ch)) as Hck.
+    assert (forall b, kv b (fold_left (fun acc a => if at_probe a then clear_probe (at_server a) acc else acc)
+                                      (ch_inflight ch) (ch_servers ch)) = kv b (ch_servers ch)) as Hk2.
+    { intros b. symmetry. apply kv_key; [apply (wf_addr _ Hwf)|symmetry; exact Hck]. }
+    split; [eapply wf_key; [symmetry; exact Hck|exact Hwf]|]. split; [exact Hk2|].
+    exists m. split; [apply mon_run_dones|].
+    destruct Hag as (Hrot & Hnd & Hk). split; [exact Hrot|]. split; [exact Hnd|].
+    intros b. cbn [ch_servers set_inflight set_servers]. rewrite Hk2. apply Hk.
   - (* EvSetServers *)
     destruct (servers_update_wf (ch_servers ch) addrs Hwf) as (Hwfk & Hkv & Hperm).
     set (keep := servers_update (ch_servers ch) addrs) in *.
@@ -1435,42 +1462,769 @@ Proof.
 Qed.
 
 (* ------------------------------------------------------------------------------------ *)
-(* Probe liveness fails in the pinned code: probe_pending is never cleared when a probe fails *)
+(* The choice is total                                                                   *)
 (* ------------------------------------------------------------------------------------ *)
-Definition ch0_refute : chan := init_chan [1; 2] false 1 1 0 (100000, 0).
 Definition draw0 : choices := {| c_rot := 0; c_probe := 0 |}.
-(* query 0 times out on server 1, succeeds on server 2; query 1 goes to server 2 and spawns the
-   probe (label 2) of server 1; the probe times out; a long time later query 3 is sent *)
-Definition history_refute : list event :=
-  [EvSend draw0; EvTimeout 0 draw0; EvAnswer 0; EvSend draw0; EvAnswer 1; EvTimeout 2 draw0; EvAdvance 600000].
 
-Definition final_refute : chan :=
-  {| ch_servers := [{| sv_addr := 2; sv_idx := 1; sv_fail := 0; sv_retry := (0, 0); sv_probe := false |};
-                    {| sv_addr := 1; sv_idx := 0; sv_fail := 2; sv_retry := (100000, 0); sv_probe := true |}];
-     ch_rotate := false; ch_tries := 1; ch_chance := 1; ch_delay := 0; ch_now := (100600, 0);
-     ch_inflight := []; ch_next_label := 3 |}.
-
-Lemma final_refute_send c :
-  exists ch', step final_refute (EvSend c) = Ok (ch', [OTx 3 2 false]).
+Lemma choose_server_total rotate c l : l <> [] -> exists s, choose_server rotate c l = Some s.
 Proof.
-  eexists. cbn [step final_refute ch_servers length Nat.eqb ch_next_label].
-  unfold send_fresh. cbn [bump_label ch_rotate ch_servers choose_server hd_error sv_fail sv_addr].
-  cbn [Z.eqb andb]. unfold ares_probe_failed_server.
-  cbn [ch_chance ch_servers last_server sv_fail Z.eqb orb]. rewrite Z.mod_1_r. cbn [Z.eqb negb].
-  cbn [ch_now]. vm_compute. reflexivity.
+  intros Hne. destruct l as [|x r]; [congruence|]. unfold choose_server. destruct rotate.
+  - unfold ares_random_server, count_highest_prio_servers. cbn [count_prio].
+    replace (negb (SIZE_MAX =? SIZE_MAX)) with false by reflexivity. cbn [andb].
+    set (n := count_prio r (sv_fail x)).
+    assert (Z.to_nat (c mod Z.of_nat (S n)) < length (x :: r))%nat as Hlt.
+    { pose proof (Z.mod_pos_bound c (Z.of_nat (S n)) ltac:(lia)).
+      pose proof (count_prio_le_length r (sv_fail x)). fold n in H0. cbn [length]. lia. }
+    destruct (nth_error (x :: r) (Z.to_nat (c mod Z.of_nat (S n)))) as [s|] eqn:Hn; [exists s; reflexivity|].
+    apply nth_error_None in Hn. lia.
+  - exists x. reflexivity.
 Qed.
 
-Lemma probe_liveness_refuted :
-  exists ch obs, run ch0_refute history_refute = Ok (ch, obs) /\
-    probe_due ch (ch_servers ch) = Ok true /\              (* a failed server is past its retry time, no probe in flight *)
-    ch_chance ch = 1 /\                                    (* every draw says "probe" *)
-    (exists su, choose_server (ch_rotate ch) 0 (ch_servers ch) = Some su /\ sv_fail su = 0) /\
-    forall c, exists ch' a, step ch (EvSend c) = Ok (ch', [OTx 3 a false]).   (* ... and yet no probe is sent *)
+(* ------------------------------------------------------------------------------------ *)
+(* Structure of one send                                                                 *)
+(* ------------------------------------------------------------------------------------ *)
+Definition mk_attempt (label : nat) (srv try err : Z) (probe : bool) : attempt :=
+  {| at_label := label; at_server := srv; at_try := try; at_err := err; at_probe := probe |}.
+Definition set_probe (s : server) (p : bool) : server :=
+  {| sv_addr := sv_addr s; sv_idx := sv_idx s; sv_fail := sv_fail s; sv_retry := sv_retry s; sv_probe := p |}.
+
+Inductive fresh_struct (ch : chan) (label : nat) (try err : Z) (c : choices) : chan -> list obs -> Prop :=
+| FtNone : choose_server (ch_rotate ch) (c_rot c) (ch_servers ch) = None ->
+    fresh_struct ch label try err c ch [ODone label ARES_ENOSERVER]
+| FtPlain ch' s :
+    choose_server (ch_rotate ch) (c_rot c) (ch_servers ch) = Some s ->
+    ch_servers ch' = ch_servers ch -> ch_next_label ch' = ch_next_label ch ->
+    ch_inflight ch' = ch_inflight ch ++ [mk_attempt label (sv_addr s) try err false] ->
+    ((sv_fail s =? 0) && (try =? 0) = false \/
+     ares_probe_failed_server (ch_chance ch) (ch_now ch) (c_probe c) s (ch_servers ch) = Ok None) ->
+    fresh_struct ch label try err c ch' [OTx label (sv_addr s) false]
+| FtProbe ch' s ps :
+    choose_server (ch_rotate ch) (c_rot c) (ch_servers ch) = Some s ->
+    sv_fail s = 0 -> try = 0 ->
+    ares_probe_failed_server (ch_chance ch) (ch_now ch) (c_probe c) s (ch_servers ch) = Ok (Some ps) ->
+    ch_servers ch' = replace_addr (set_probe ps true) (ch_servers ch) ->
+    ch_next_label ch' = S (ch_next_label ch) ->
+    ch_inflight ch' = ch_inflight ch ++ [mk_attempt label (sv_addr s) try err false;
+                                         mk_attempt (ch_next_label ch) (sv_addr ps) 0 ARES_SUCCESS true] ->
+    fresh_struct ch label try err c ch' [OTx label (sv_addr s) false; OTx (ch_next_label ch) (sv_addr ps) true].
+
+Lemma send_fresh_struct ch label try err c ch' obs :
+  send_fresh ch label try err c = Ok (ch', obs) ->
+  fresh_struct ch label try err c ch' obs /\ ch_tries ch' = ch_tries ch /\ ch_now ch' = ch_now ch /\
+  ch_chance ch' = ch_chance ch /\ ch_rotate ch' = ch_rotate ch /\ ch_delay ch' = ch_delay ch.
 Proof.
-  exists final_refute. eexists. split; [vm_compute; reflexivity|]. split; [vm_compute; reflexivity|].
-  split; [reflexivity|]. split; [eexists; split; vm_compute; reflexivity|].
-  intros c. destruct (final_refute_send c) as (ch' & H). exists ch', 2. exact H.
+  intros H. unfold send_fresh in H.
+  destruct (choose_server (ch_rotate ch) (c_rot c) (ch_servers ch)) as [s|] eqn:Hch.
+  2:{ injection H as <- <-. split; [apply FtNone; exact Hch|repeat split]. }
+  destruct ((sv_fail s =? 0) && (try =? 0)) eqn:Hcond.
+  2:{ injection H as <- <-. split; [|repeat split]. eapply FtPlain; try reflexivity; [exact Hch|left; exact Hcond]. }
+  destruct (ares_probe_failed_server (ch_chance ch) (ch_now ch) (c_probe c) s (ch_servers ch)) as [p| |] eqn:Hp;
+    cbn [bind] in H; try discriminate.
+  destruct p as [ps|].
+  2:{ injection H as <- <-. split; [|repeat split]. eapply FtPlain; try reflexivity; [exact Hch|right; exact Hp]. }
+  injection H as <- <-. split; [|repeat split].
+  apply andb_true_iff in Hcond. destruct Hcond as (Hf0 & Ht0). apply Z.eqb_eq in Hf0. apply Z.eqb_eq in Ht0.
+  eapply FtProbe; try reflexivity; try assumption.
+  cbn [ch_inflight set_inflight bump_label set_servers]. rewrite <- app_assoc. reflexivity.
 Qed.
+
+(* ------------------------------------------------------------------------------------ *)
+(* Invariants of reachable states: labels, pending probes, retry budget                  *)
+(* ------------------------------------------------------------------------------------ *)
+Definition labels_ok (ch : chan) : Prop :=
+  NoDup (map at_label (ch_inflight ch)) /\
+  forall a, In a (ch_inflight ch) -> (at_label a < ch_next_label ch)%nat.
+
+(* probe_pending is set only while a probe to that server is in flight ([e]: one address may
+   be exempt while its probe is being ended) *)
+Definition probe_inv_but (e : option Z) (ch : chan) : Prop :=
+  forall b s, find_addr b (ch_servers ch) = Some s -> sv_probe s = true -> Some b <> e ->
+    exists x, In x (ch_inflight ch) /\ at_probe x = true /\ at_server x = b.
+Definition probe_inv := probe_inv_but None.
+
+Lemma find_attempt_some lab l a : find_attempt lab l = Some a -> In a l /\ at_label a = lab.
+Proof.
+  induction l as [|x r IH]; [discriminate|]. cbn [find_attempt].
+  destruct (Nat.eqb_spec (at_label x) lab) as [He|Hne].
+  - intros H. injection H as <-. split; [left; reflexivity|exact He].
+  - intros H. destruct (IH H). split; [right; assumption|assumption].
+Qed.
+
+Lemma remove_attempt_in lab l x : In x (remove_attempt lab l) -> In x l.
+Proof.
+  induction l as [|y r IH]; [intros []|]. cbn [remove_attempt].
+  destruct (Nat.eqb (at_label y) lab); [intros H; right; exact H|].
+  intros [->|H]; [left; reflexivity|right; apply IH; exact H].
+Qed.
+
+Lemma remove_attempt_keeps lab l x : In x l -> at_label x <> lab -> In x (remove_attempt lab l).
+Proof.
+  induction l as [|y r IH]; [intros []|]. cbn [remove_attempt]. intros Hin Hne.
+  destruct (Nat.eqb_spec (at_label y) lab) as [He|Hn].
+  - destruct Hin as [->|Hin]; [congruence|exact Hin].
+  - destruct Hin as [->|Hin]; [left; reflexivity|right; apply IH; assumption].
+Qed.
+
+Lemma remove_attempt_nodup lab l :
+  NoDup (map at_label l) -> NoDup (map at_label (remove_attempt lab l)) /\ ~ In lab (map at_label (remove_attempt lab l)).
+Proof.
+  induction l as [|y r IH]; intros H; [split; [constructor|intros []]|].
+  cbn [map] in H. inversion H as [|? ? Hn Hr]; subst. cbn [remove_attempt].
+  destruct (Nat.eqb_spec (at_label y) lab) as [He|Hne].
+  - split; [exact Hr|]. rewrite <- He. exact Hn.
+  - destruct (IH Hr) as (H1 & H2). cbn [map]. split.
+    + constructor; [|exact H1]. intros Hin. apply Hn. apply in_map_iff in Hin. destruct Hin as (z & Hz & Hzin).
+      rewrite <- Hz. apply in_map. eapply remove_attempt_in. exact Hzin.
+    + intros [Hin|Hin]; [congruence|exact (H2 Hin)].
+Qed.
+
+Lemma nodup_map_eq {A B} (f : A -> B) l x y : NoDup (map f l) -> In x l -> In y l -> f x = f y -> x = y.
+Proof.
+  induction l as [|z r IH]; intros Hnd Hx Hy He; [destruct Hx|].
+  cbn [map] in Hnd. inversion Hnd as [|? ? Hn Hr]; subst.
+  destruct Hx as [->|Hx]; destruct Hy as [->|Hy]; try reflexivity.
+  - exfalso. apply Hn. rewrite He. apply in_map. exact Hy.
+  - exfalso. apply Hn. rewrite <- He. apply in_map. exact Hx.
+  - apply IH; assumption.
+Qed.
+
+Lemma clear_probe_find a l b :
+  find_addr b (clear_probe a l) =
+  match find_addr b l with Some s => Some (if b =? a then set_probe s false else s) | None => None end.
+Proof.
+  unfold clear_probe. destruct (find_addr a l) as [sa|] eqn:Hfa.
+  - rewrite replace_find. cbn [sv_addr]. pose proof (find_addr_some a l sa Hfa) as (_ & Hsa). subst a.
+    destruct (Z.eqb_spec b (sv_addr sa)) as [->|Hne].
+    + rewrite Hfa. reflexivity.
+    + destruct (find_addr b l); reflexivity.
+  - destruct (Z.eqb_spec b a) as [->|Hne]; [rewrite Hfa; reflexivity|]. destruct (find_addr b l); reflexivity.
+Qed.
+
+Lemma probe_failed_some chance now r used l ps :
+  ares_probe_failed_server chance now r used l = Ok (Some ps) ->
+  In ps l /\ 0 < sv_fail ps /\ sv_probe ps = false /\ sv_addr ps <> sv_addr used.
+Proof.
+  unfold ares_probe_failed_server.
+  destruct ((match last_server l with Some s => sv_fail s =? 0 | None => false end) || (chance =? 0)); [discriminate|].
+  destruct (negb (r mod chance =? 0)); [discriminate|].
+  destruct (find_probe_target now l) as [q| |] eqn:Hq; cbn [bind]; try discriminate.
+  destruct q as [ps0|]; [|discriminate].
+  destruct (Z.eqb_spec (sv_addr ps0) (sv_addr used)) as [He|Hne]; [discriminate|]. intros H. injection H as <-.
+  destruct (find_probe_target_some _ _ _ Hq) as (Hin & Hpos & Hpr & _). repeat split; assumption.
+Qed.
+
+Lemma NoDup_app_one {A} (l : list A) x : NoDup l -> ~ In x l -> NoDup (l ++ [x]).
+Proof.
+  induction l as [|y r IH]; intros Hnd Hn; [constructor; [intros []|constructor]|].
+  inversion Hnd as [|? ? Hy Hr]; subst. cbn [app]. constructor.
+  - intros Hin. apply in_app_iff in Hin. destruct Hin as [Hin|[<-|[]]]; [exact (Hy Hin)|apply Hn; left; reflexivity].
+  - apply IH; [exact Hr|]. intros Hin. apply Hn. right. exact Hin.
+Qed.
+
+(* everything the two monitors and the liveness argument need to know about a reachable state *)
+Record inv (bm : budget_mon) (ch : chan) : Prop := {
+  i_wf : wf (ch_servers ch);
+  i_lab : labels_ok ch;
+  i_probe : probe_inv ch;
+  i_tries : b_tries bm = ch_tries ch;
+  i_nsrv : b_nsrv bm = length (ch_servers ch);
+  i_cnt : forall a, In a (ch_inflight ch) -> at_probe a = false ->
+            Z.of_nat (count_occ Nat.eq_dec (b_txs bm) (at_label a)) = at_try a + 1;
+  i_txlab : forall l, In l (b_txs bm) -> (l < ch_next_label ch)%nat
+}.
+
+Definition add_tx (bm : budget_mon) (l : nat) : budget_mon :=
+  {| b_tries := b_tries bm; b_nsrv := b_nsrv bm; b_txs := l :: b_txs bm |}.
+
+(* one fresh attempt of query [label], which is not in flight at the moment *)
+Lemma fresh_inv bm ch e label try err c ch' obs :
+  wf (ch_servers ch) -> labels_ok ch -> probe_inv_but e ch ->
+  b_tries bm = ch_tries ch -> b_nsrv bm = length (ch_servers ch) ->
+  (forall a, In a (ch_inflight ch) -> at_probe a = false ->
+     Z.of_nat (count_occ Nat.eq_dec (b_txs bm) (at_label a)) = at_try a + 1) ->
+  (forall l, In l (b_txs bm) -> (l < ch_next_label ch)%nat) ->
+  (label < ch_next_label ch)%nat -> ~ In label (map at_label (ch_inflight ch)) ->
+  Z.of_nat (count_occ Nat.eq_dec (b_txs bm) label) = try ->
+  send_fresh ch label try err c = Ok (ch', obs) ->
+  exists bm', bmon_run bm obs = Some bm' /\
+    wf (ch_servers ch') /\ labels_ok ch' /\ probe_inv_but e ch' /\
+    b_tries bm' = ch_tries ch' /\ b_nsrv bm' = length (ch_servers ch') /\
+    (forall a, In a (ch_inflight ch') -> at_probe a = false ->
+       Z.of_nat (count_occ Nat.eq_dec (b_txs bm') (at_label a)) = at_try a + 1) /\
+    (forall l, In l (b_txs bm') -> (l < ch_next_label ch')%nat) /\
+    (ch_next_label ch <= ch_next_label ch')%nat /\
+    (forall x, In x (ch_inflight ch) -> In x (ch_inflight ch')) /\
+    map sv_addr (ch_servers ch') = map sv_addr (ch_servers ch).
+Proof.
+  intros Hwf (Hnd & Hlt) Hpi Htr Hns Hcnt Htx Hlab Hfresh Hc H.
+  destruct (send_fresh_struct _ _ _ _ _ _ _ H) as (Hst & Ht' & _ & _ & _ & _).
+  inversion Hst as [Hch|ch1 s Hch Hsv Hnl Hinf _|ch1 s ps Hch Hf0 Ht0 Hpf Hsv Hnl Hinf]; subst.
+  - (* no server: the list is empty *)
+    assert (ch_servers ch' = []) as He.
+    { destruct (ch_servers ch') as [|x r] eqn:E; [reflexivity|].
+      destruct (choose_server_total (ch_rotate ch') (c_rot c) (x :: r) ltac:(discriminate)) as (s0 & Hs0). congruence. }
+    exists bm. split.
+    + cbn [bmon_run bmon_step]. replace (ARES_ENOSERVER =? ARES_SUCCESS) with false by reflexivity.
+      replace (ARES_ENOSERVER =? ARES_ECANCELLED) with false by reflexivity.
+      replace (ARES_ENOSERVER =? ARES_EDESTRUCTION) with false by reflexivity. cbn [orb].
+      rewrite Hns, He. cbn [length]. destruct (Z.leb_spec (Z.of_nat 0 * b_tries bm) (Z.of_nat (count_occ Nat.eq_dec (b_txs bm) label))); [reflexivity|lia].
+    + split; [exact Hwf|]. split; [split; assumption|]. split; [exact Hpi|]. split; [exact Htr|]. split; [exact Hns|].
+      split; [exact Hcnt|]. split; [exact Htx|]. split; [lia|]. split; [intros x Hx; exact Hx|reflexivity].
+  - (* plain transmission *)
+    exists (add_tx bm label). split; [reflexivity|].
+    assert (forall a, In a (ch_inflight ch') <-> In a (ch_inflight ch) \/ a = mk_attempt label (sv_addr s) (Z.of_nat (count_occ Nat.eq_dec (b_txs bm) label)) err false) as Hin.
+    { intros a. rewrite Hinf, in_app_iff. cbn [In]. intuition congruence. }
+    split; [rewrite Hsv; exact Hwf|]. split.
+    { split.
+      - rewrite Hinf, map_app. cbn [map mk_attempt at_label]. apply NoDup_app_one; assumption.
+      - intros a Ha. rewrite Hnl. apply Hin in Ha. destruct Ha as [Ha| ->]; [apply Hlt; exact Ha|exact Hlab]. }
+    split.
+    { intros b sb Hfb Hpb Hne. rewrite Hsv in Hfb. destruct (Hpi b sb Hfb Hpb Hne) as (x & Hx & Hxp & Hxs).
+      exists x. split; [apply Hin; left; exact Hx|split; assumption]. }
+    split; [exact (eq_trans Htr (eq_sym Ht'))|]. split; [rewrite Hsv; exact Hns|]. split.
+    { intros a Ha Hpa. cbn [add_tx b_txs count_occ]. apply Hin in Ha. destruct Ha as [Ha| ->].
+      - destruct (Nat.eq_dec label (at_label a)) as [He|Hne]; [exfalso; apply Hfresh; rewrite He; apply in_map; exact Ha|].
+        apply Hcnt; assumption.
+      - cbn [mk_attempt at_label at_try]. destruct (Nat.eq_dec label label) as [_|Hn]; [lia|congruence]. }
+    split; [intros l [<-|Hl]; rewrite Hnl; [exact Hlab|apply Htx; exact Hl]|].
+    split; [lia|]. split; [intros x Hx; apply Hin; left; exact Hx|rewrite Hsv; reflexivity].
+  - (* transmission plus probe copy *)
+    destruct (probe_failed_some _ _ _ _ _ _ Hpf) as (Hpsin & Hpspos & Hpspr & Hpsne).
+    pose proof (find_addr_in_nodup _ _ (wf_addr _ Hwf) Hpsin) as Hfps.
+    assert (key (set_probe ps true) = key ps) as Hk by reflexivity.
+    pose proof (replace_addr_key (set_probe ps true) (ch_servers ch) ps Hfps Hk) as Hkey.
+    exists (add_tx bm label). split; [reflexivity|].
+    rewrite Ht0 in Hinf.
+    set (ua := mk_attempt label (sv_addr s) 0 err false).
+    set (pa := mk_attempt (ch_next_label ch) (sv_addr ps) 0 ARES_SUCCESS true).
+    assert (forall a, In a (ch_inflight ch') <-> In a (ch_inflight ch) \/ a = ua \/ a = pa) as Hin.
+    { intros a. rewrite Hinf, in_app_iff. unfold ua, pa. cbn [In]. intuition congruence. }
+    split; [rewrite Hsv; eapply wf_key; [symmetry; exact Hkey|exact Hwf]|]. split.
+    { split.
+      - rewrite Hinf, map_app. cbn [map mk_attempt at_label].
+        replace (map at_label (ch_inflight ch) ++ [label; ch_next_label ch])
+          with ((map at_label (ch_inflight ch) ++ [label]) ++ [ch_next_label ch]) by (rewrite <- app_assoc; reflexivity).
+        apply NoDup_app_one.
+        + apply NoDup_app_one; assumption.
+        + intros Hin2. apply in_app_iff in Hin2. destruct Hin2 as [Hin2|[Hin2|[]]].
+          * apply in_map_iff in Hin2. destruct Hin2 as (z & Hz & Hzin). specialize (Hlt z Hzin). lia.
+          * lia.
+      - intros a Ha. rewrite Hnl. apply Hin in Ha. destruct Ha as [Ha|[->| ->]].
+        + specialize (Hlt a Ha). lia.
+        + cbn [ua mk_attempt at_label]. lia.
+        + cbn [pa mk_attempt at_label]. lia. }
+    split.
+    { intros b sb Hfb Hpb Hne. rewrite Hsv, replace_find in Hfb. cbn [set_probe sv_addr] in Hfb.
+      destruct (Z.eqb_spec b (sv_addr ps)) as [->|Hnb].
+      - exists pa. split; [apply Hin; right; right; reflexivity|split; reflexivity].
+      - destruct (Hpi b sb Hfb Hpb Hne) as (x & Hx & Hxp & Hxs).
+        exists x. split; [apply Hin; left; exact Hx|split; assumption]. }
+    split; [exact (eq_trans Htr (eq_sym Ht'))|].
+    split; [cbn [add_tx b_nsrv]; rewrite Hsv, Hns; rewrite <- (map_length key (replace_addr _ _)), Hkey, map_length; reflexivity|]. split.
+    { intros a Ha Hpa. cbn [add_tx b_txs count_occ]. apply Hin in Ha. destruct Ha as [Ha|[->| ->]].
+      - destruct (Nat.eq_dec label (at_label a)) as [He|Hne]; [exfalso; apply Hfresh; rewrite He; apply in_map; exact Ha|].
+        apply Hcnt; assumption.
+      - cbn [ua mk_attempt at_label at_try]. destruct (Nat.eq_dec label label) as [_|Hn]; [lia|congruence].
+      - discriminate. }
+    split; [intros l [<-|Hl]; rewrite Hnl; [lia|specialize (Htx l Hl); lia]|].
+    split; [lia|]. split; [intros x Hx; apply Hin; left; exact Hx|].
+    rewrite Hsv. replace (map sv_addr (replace_addr (set_probe ps true) (ch_servers ch)))
+      with (map (fun k => fst (fst k)) (map key (replace_addr (set_probe ps true) (ch_servers ch)))) by (rewrite map_map; reflexivity).
+    rewrite Hkey, map_map. reflexivity.
+Qed.
+
+Lemma requeue_inv bm ch a status c ch' obs :
+  wf (ch_servers ch) -> labels_ok ch ->
+  probe_inv_but (if at_probe a then Some (at_server a) else None) ch ->
+  b_tries bm = ch_tries ch -> b_nsrv bm = length (ch_servers ch) ->
+  (forall x, In x (ch_inflight ch) -> at_probe x = false ->
+     Z.of_nat (count_occ Nat.eq_dec (b_txs bm) (at_label x)) = at_try x + 1) ->
+  (forall l, In l (b_txs bm) -> (l < ch_next_label ch)%nat) ->
+  (at_label a < ch_next_label ch)%nat -> ~ In (at_label a) (map at_label (ch_inflight ch)) ->
+  (at_probe a = false -> Z.of_nat (count_occ Nat.eq_dec (b_txs bm) (at_label a)) = at_try a + 1) ->
+  requeue ch a status c = Ok (ch', obs) ->
+  exists bm', bmon_run bm obs = Some bm' /\ inv bm' ch' /\
+    (ch_next_label ch <= ch_next_label ch')%nat /\
+    (forall x, In x (ch_inflight ch) -> In x (ch_inflight ch')) /\
+    map sv_addr (ch_servers ch') = map sv_addr (ch_servers ch).
+Proof.
+  intros Hwf Hlab Hpi Htr Hns Hcnt Htx Hlt Hfresh Hca H. unfold requeue in H.
+  destruct (requeue_sends ch a) eqn:Hs.
+  - unfold requeue_sends in Hs. apply andb_true_iff in Hs. destruct Hs as (_ & Hp). apply negb_true_iff in Hp.
+    rewrite Hp in Hpi.
+    destruct (fresh_inv bm ch None _ _ _ _ _ _ Hwf Hlab Hpi Htr Hns Hcnt Htx Hlt Hfresh (Hca Hp) H)
+      as (bm' & Hrun & Hwf' & Hlab' & Hpi' & Htr' & Hns' & Hcnt' & Htx' & Hmono & Hsub & Haddr).
+    exists bm'. split; [exact Hrun|]. split; [constructor; assumption|]. split; [exact Hmono|]. split; [exact Hsub|exact Haddr].
+  - destruct (at_probe a) eqn:Hp.
+    + injection H as <- <-. exists bm. split; [reflexivity|].
+      pose proof (clear_probe_key (at_server a) (ch_servers ch)) as Hck.
+      split; [|split; [cbn; lia|split; [intros x Hx; exact Hx|]]].
+      * constructor; cbn [ch_servers ch_inflight ch_next_label ch_tries set_servers]; try assumption.
+        -- eapply wf_key; [symmetry; exact Hck|exact Hwf].
+        -- intros b s Hfb Hpb _. cbn [ch_servers ch_inflight set_servers] in Hfb |- *. rewrite clear_probe_find in Hfb.
+           destruct (find_addr b (ch_servers ch)) as [s0|] eqn:Hf0; [|discriminate]. injection Hfb as <-.
+           destruct (Z.eqb_spec b (at_server a)) as [->|Hne]; [discriminate|].
+           apply (Hpi b s0 Hf0 Hpb). congruence.
+        -- rewrite Hns. rewrite <- (map_length key (clear_probe _ _)), Hck, map_length. reflexivity.
+      * cbn [ch_servers set_servers].
+        replace (map sv_addr (clear_probe (at_server a) (ch_servers ch)))
+          with (map (fun k => fst (fst k)) (map key (clear_probe (at_server a) (ch_servers ch)))) by (rewrite map_map; reflexivity).
+        rewrite Hck, map_map. reflexivity.
+    + injection H as <- <-.
+      exists bm. split.
+      * cbn [bmon_run bmon_step].
+        set (st := if (if status =? ARES_SUCCESS then at_err a else status) =? ARES_SUCCESS then ARES_ETIMEOUT else (if status =? ARES_SUCCESS then at_err a else status)).
+        destruct ((st =? ARES_SUCCESS) || (st =? ARES_ECANCELLED) || (st =? ARES_EDESTRUCTION)); [reflexivity|].
+        unfold requeue_sends in Hs. rewrite Hp in Hs. cbn [negb] in Hs. rewrite andb_true_r in Hs.
+        apply Z.ltb_ge in Hs. rewrite Hns, Htr, (Hca eq_refl).
+        destruct (Z.leb_spec (Z.of_nat (length (ch_servers ch)) * ch_tries ch) (at_try a + 1)); [reflexivity|lia].
+      * split; [constructor; assumption|]. split; [lia|]. split; [intros x Hx; exact Hx|reflexivity].
+Qed.
+
+Lemma bmon_run_app bm a b :
+  bmon_run bm (a ++ b) = match bmon_run bm a with Some bm' => bmon_run bm' b | None => None end.
+Proof.
+  revert bm. induction a as [|o r IH]; intros bm; [reflexivity|]. cbn [app bmon_run].
+  destruct (bmon_step bm o); [apply IH|reflexivity].
+Qed.
+
+Lemma reinsert_length s' l s : find_addr (sv_addr s') l = Some s -> length (reinsert s' l) = length l.
+Proof.
+  intros Hf. unfold reinsert.
+  rewrite (Permutation_length (insert_sorted_perm s' (remove_addr (sv_addr s') l))).
+  rewrite (Permutation_length (remove_addr_perm _ _ _ Hf)). reflexivity.
+Qed.
+
+Lemma replace_addr_length s' l : length (replace_addr s' l) = length l.
+Proof. induction l as [|x r IH]; [reflexivity|]. cbn [replace_addr]. destruct (sv_addr x =? sv_addr s'); cbn [length]; congruence. Qed.
+
+Lemma clear_probe_length a l : length (clear_probe a l) = length l.
+Proof. unfold clear_probe. destruct (find_addr a l); [apply replace_addr_length|reflexivity]. Qed.
+
+Lemma set_good_length a l : length (server_set_good a l) = length l.
+Proof.
+  unfold server_set_good. destruct (find_addr a l) as [s|] eqn:Hf; [|reflexivity].
+  pose proof (find_addr_some a l s Hf) as (_ & Hsa).
+  destruct (0 <? sv_fail s); [|apply replace_addr_length].
+  eapply reinsert_length. cbn [sv_addr]. rewrite Hsa. exact Hf.
+Qed.
+
+Lemma increment_length now delay a l l' : server_increment_failures now delay a l = Ok l' -> length l' = length l.
+Proof.
+  unfold server_increment_failures. destruct (find_addr a l) as [s|] eqn:Hf; [|intros H; injection H as <-; reflexivity].
+  pose proof (find_addr_some a l s Hf) as (_ & Hsa).
+  destruct (c_timeadd delay (fst now) (snd now)); cbn [bind]; try discriminate.
+  intros H. injection H as <-. eapply reinsert_length. cbn [sv_addr]. rewrite Hsa. exact Hf.
+Qed.
+
+Lemma count_occ_fresh (txs : list nat) l : (forall x, In x txs -> (x < l)%nat) -> count_occ Nat.eq_dec txs l = 0%nat.
+Proof. intros H. apply count_occ_not_In. intros Hin. specialize (H l Hin). lia. Qed.
+
+(* a witness of probe_inv survives the removal of another attempt *)
+Lemma witness_survives ch a x :
+  labels_ok ch -> In a (ch_inflight ch) -> In x (ch_inflight ch) -> x <> a ->
+  In x (remove_attempt (at_label a) (ch_inflight ch)).
+Proof.
+  intros (Hnd & _) Ha Hx Hne. apply remove_attempt_keeps; [exact Hx|].
+  intros He. apply Hne. eapply nodup_map_eq; eassumption.
+Qed.
+
+Lemma labels_ok_remove ch lab :
+  labels_ok ch -> labels_ok (set_inflight ch (remove_attempt lab (ch_inflight ch))) /\
+  ~ In lab (map at_label (remove_attempt lab (ch_inflight ch))).
+Proof.
+  intros (Hnd & Hlt). destruct (remove_attempt_nodup lab _ Hnd) as (H1 & H2).
+  split; [|exact H2]. split; [exact H1|]. intros x Hx. apply Hlt. eapply remove_attempt_in. exact Hx.
+Qed.
+
+Lemma fail_attempt_inv bm ch a status c ch' obs :
+  inv bm ch -> In a (ch_inflight ch) -> fail_attempt ch a status c = Ok (ch', obs) ->
+  exists bm', bmon_run bm obs = Some bm' /\ inv bm' ch'.
+Proof.
+  intros [Hwf Hlab Hpi Htr Hns Hcnt Htx] Ha H. unfold fail_attempt in H.
+  set (ch0 := set_inflight ch (remove_attempt (at_label a) (ch_inflight ch))) in H.
+  change (ch_servers ch0) with (ch_servers ch) in H.
+  change (ch_now ch0) with (ch_now ch) in H. change (ch_delay ch0) with (ch_delay ch) in H.
+  destruct (server_increment_failures (ch_now ch) (ch_delay ch) (at_server a) (ch_servers ch)) as [l1| |] eqn:Hinc;
+    cbn [bind] in H; try discriminate.
+  destruct (increment_spec _ _ _ _ _ Hwf Hinc) as (Hwf1 & Hoth & Hsame & Hnone).
+  destruct (requeue (set_servers ch0 l1) a status c) as [[ch2 robs]| |] eqn:Hrq; cbn [bind fst snd] in H; try discriminate.
+  injection H as <- <-.
+  destruct (labels_ok_remove ch (at_label a) Hlab) as (Hlab0 & Hfresh).
+  assert (probe_inv_but (if at_probe a then Some (at_server a) else None) (set_servers ch0 l1)) as Hpi1.
+  { intros b s1 Hfb Hpb Hne. cbn [ch_servers ch_inflight set_servers set_inflight ch0] in Hfb |- *.
+    assert (exists s0, find_addr b (ch_servers ch) = Some s0 /\ sv_probe s0 = true) as (s0 & Hf0 & Hp0).
+    { destruct (Z.eq_dec b (at_server a)) as [->|Hb].
+      - destruct (find_addr (at_server a) (ch_servers ch)) as [s0|] eqn:Hf0.
+        + destruct (Hsame s0 eq_refl) as (s' & Hf' & _ & _ & Hpr). rewrite Hf' in Hfb. injection Hfb as <-.
+          exists s0. split; [reflexivity|congruence].
+        + rewrite (Hnone eq_refl), Hf0 in Hfb. discriminate.
+      - rewrite (Hoth b Hb) in Hfb. exists s1. split; assumption. }
+    destruct (Hpi b s0 Hf0 Hp0 ltac:(discriminate)) as (x & Hx & Hxp & Hxs).
+    exists x. split; [|split; assumption]. apply witness_survives; try assumption.
+    intros ->. destruct (at_probe a) eqn:Hpa; [|congruence]. apply Hne. rewrite Hxs. reflexivity. }
+  assert (b_nsrv bm = length (ch_servers (set_servers ch0 l1))) as Hns1
+    by (cbn [ch_servers set_servers]; rewrite (increment_length _ _ _ _ _ Hinc); exact Hns).
+  destruct (requeue_inv bm (set_servers ch0 l1) a status c ch2 robs Hwf1 Hlab0 Hpi1 Htr Hns1) as (bm' & Hrun & Hinv & _).
+  - intros x Hx Hpx. apply Hcnt; [eapply remove_attempt_in; exact Hx|exact Hpx].
+  - exact Htx.
+  - destruct Hlab as (_ & Hlt). apply Hlt. exact Ha.
+  - exact Hfresh.
+  - intros Hpa. apply Hcnt; assumption.
+  - exact Hrq.
+  - exists bm'. split; [|exact Hinv]. rewrite bmon_run_app.
+    cbn [ch_servers set_inflight ch0]. destruct (find_addr (at_server a) (ch_servers ch)); exact Hrun.
+Qed.
+
+Lemma fold_clear_find : forall (atts : list attempt) l b,
+  find_addr b (fold_left (fun acc a => if at_probe a then clear_probe (at_server a) acc else acc) atts l) =
+  match find_addr b l with
+  | Some s => Some (if existsb (fun a => at_probe a && (at_server a =? b)) atts then set_probe s false else s)
+  | None => None
+  end.
+Proof.
+  induction atts as [|a r IH]; intros l b; [cbn; destruct (find_addr b l); reflexivity|].
+  cbn [fold_left existsb]. rewrite IH.
+  destruct (at_probe a) eqn:Hp; cbn [andb].
+  - rewrite clear_probe_find. destruct (find_addr b l) as [s|]; [|reflexivity].
+    rewrite (Z.eqb_sym (at_server a) b).
+    destruct (b =? at_server a); cbn [orb]; [|reflexivity].
+    destruct (existsb (fun a0 => at_probe a0 && (at_server a0 =? b)) r); reflexivity.
+  - reflexivity.
+Qed.
+
+Lemma carry_find_probe old b : forall addrs idx s,
+  carry_find old b idx addrs = Some s -> sv_probe s = true ->
+  exists o, find_addr b old = Some o /\ sv_probe o = true.
+Proof.
+  induction addrs as [|a r IH]; intros idx s H Hp; [discriminate|]. cbn [carry_find] in H.
+  destruct (Z.eqb_spec a b) as [->|Hne]; [|eapply IH; eassumption].
+  injection H as <-. unfold carry in Hp |- *. destruct (find_addr b old) as [o|]; [|discriminate].
+  exists o. split; [reflexivity|exact Hp].
+Qed.
+
+Lemma servers_update_find old addrs b :
+  wf old -> find_addr b (servers_update old addrs) = carry_find old b 0 (dedup [] addrs).
+Proof.
+  intros [Hnd _ Hs Hr]. destruct (dedup_nodup addrs []) as (Hndd & _).
+  destruct (update_loop_spec (dedup [] addrs) 0 old Hndd Hnd (lt_sorted_le _ Hs) Hr) as (_ & _ & _ & Hf1).
+  unfold servers_update. rewrite find_addr_filter, Hf1.
+  destruct (existsb (Z.eqb b) addrs) eqn:Hb.
+  - apply existsb_dedup in Hb. destruct (carry_find_in old b (dedup [] addrs) 0 Hb) as (y & Hy). rewrite Hy. reflexivity.
+  - symmetry. apply carry_find_none. intros Hin. apply existsb_dedup in Hin. congruence.
+Qed.
+
+Lemma victims_in stale inflight v : In v (victims stale inflight) ->
+  In v inflight /\ exists s, In s stale /\ at_server v = sv_addr s.
+Proof.
+  unfold victims. rewrite in_flat_map. intros (s & Hs & Hv). apply filter_In in Hv. destruct Hv as (Hv & He).
+  apply Z.eqb_eq in He. split; [exact Hv|]. exists s. split; assumption.
+Qed.
+
+Lemma NoDup_app_disj {A} (l1 l2 : list A) :
+  NoDup l1 -> NoDup l2 -> (forall x, In x l1 -> In x l2 -> False) -> NoDup (l1 ++ l2).
+Proof.
+  induction l1 as [|y r IH]; intros H1 H2 Hd; [exact H2|].
+  inversion H1 as [|? ? Hy Hr]; subst. cbn [app]. constructor.
+  - intros Hin. apply in_app_iff in Hin. destruct Hin as [Hin|Hin]; [exact (Hy Hin)|exact (Hd y (or_introl eq_refl) Hin)].
+  - apply IH; [exact Hr|exact H2|]. intros x Hx1 Hx2. exact (Hd x (or_intror Hx1) Hx2).
+Qed.
+
+Lemma victims_nodup : forall stale inflight,
+  NoDup (map sv_addr stale) -> NoDup (map at_label inflight) -> NoDup (map at_label (victims stale inflight)).
+Proof.
+  induction stale as [|s r IH]; intros inflight Hs Hl; [constructor|].
+  cbn [map] in Hs. inversion Hs as [|? ? Hn Hr]; subst.
+  unfold victims. cbn [flat_map]. fold (victims r inflight). rewrite map_app.
+  apply NoDup_app_disj; [apply nodup_map_filter; exact Hl|apply IH; assumption|].
+  intros lab H1 H2. apply in_map_iff in H1. destruct H1 as (x & Hx & Hxin). apply in_map_iff in H2. destruct H2 as (y & Hy & Hyin).
+  apply filter_In in Hxin. destruct Hxin as (Hxin & Hxs). apply Z.eqb_eq in Hxs.
+  destruct (victims_in _ _ _ Hyin) as (Hyin2 & s2 & Hs2 & Hys).
+  assert (x = y) as -> by (eapply nodup_map_eq; [exact Hl|exact Hxin|exact Hyin2|congruence]).
+  apply Hn. rewrite <- Hxs, Hys. apply in_map. exact Hs2.
+Qed.
+
+Lemma requeue_all_inv : forall vs bm ch cs n ch' obs,
+  inv bm ch -> NoDup (map at_label vs) ->
+  (forall v, In v vs -> In v (ch_inflight ch) /\ find_addr (at_server v) (ch_servers ch) = None) ->
+  requeue_all ch vs cs n = Ok (ch', obs) ->
+  exists bm', bmon_run bm obs = Some bm' /\ inv bm' ch'.
+Proof.
+  induction vs as [|v r IH]; intros bm ch cs n ch' obs Hinv Hnd Hvs H.
+  - injection H as <- <-. exists bm. split; [reflexivity|exact Hinv].
+  - cbn [requeue_all] in H.
+    set (ch0 := set_inflight ch (remove_attempt (at_label v) (ch_inflight ch))) in H.
+    destruct (requeue ch0 v ARES_SUCCESS (nth_choice cs n)) as [[ch1 o1]| |] eqn:Hr; cbn [bind fst snd] in H; try discriminate.
+    destruct (requeue_all ch1 r cs (if requeue_sends ch0 v then S n else n)) as [[ch2 o2]| |] eqn:Hr2; cbn [bind fst snd] in H; try discriminate.
+    injection H as <- <-.
+    destruct Hinv as [Hwf Hlab Hpi Htr Hns Hcnt Htx].
+    destruct (Hvs v (or_introl eq_refl)) as (Hvin & Hvnone).
+    destruct (labels_ok_remove ch (at_label v) Hlab) as (Hlab0 & Hfresh).
+    assert (probe_inv_but (if at_probe v then Some (at_server v) else None) ch0) as Hpi0.
+    { intros b s Hfb Hpb _. destruct (Hpi b s Hfb Hpb ltac:(discriminate)) as (x & Hx & Hxp & Hxs).
+      exists x. split; [|split; assumption]. apply witness_survives; try assumption.
+      intros ->. cbn [ch_servers set_inflight ch0] in Hfb. congruence. }
+    destruct (requeue_inv bm ch0 v ARES_SUCCESS (nth_choice cs n) ch1 o1 Hwf Hlab0 Hpi0 Htr Hns) as (bm1 & Hrun1 & Hinv1 & _ & Hsub & Haddr).
+    + intros x Hx Hpx. apply Hcnt; [eapply remove_attempt_in; exact Hx|exact Hpx].
+    + exact Htx.
+    + destruct Hlab as (_ & Hlt). apply Hlt. exact Hvin.
+    + exact Hfresh.
+    + intros Hpv. apply Hcnt; assumption.
+    + exact Hr.
+    + cbn [map] in Hnd. inversion Hnd as [|? ? Hvn Hndr]; subst.
+      destruct (IH bm1 ch1 cs (if requeue_sends ch0 v then S n else n) ch2 o2 Hinv1 Hndr) as (bm2 & Hrun2 & Hinv2); [|exact Hr2|].
+      * intros v2 Hv2. destruct (Hvs v2 (or_intror Hv2)) as (Hv2in & Hv2none). split.
+        -- apply Hsub. cbn [ch_inflight set_inflight ch0]. apply remove_attempt_keeps; [exact Hv2in|].
+           intros He. apply Hvn. rewrite <- He. apply in_map. exact Hv2.
+        -- apply find_addr_none. rewrite Haddr. apply find_addr_none. exact Hv2none.
+      * exists bm2. split; [|exact Hinv2]. rewrite bmon_run_app, Hrun1. exact Hrun2.
+Qed.
+
+Lemma step_inv bm ch ev ch' obs :
+  inv bm ch -> step ch ev = Ok (ch', obs) -> exists bm', bmon_run bm obs = Some bm' /\ inv bm' ch'.
+Proof.
+  intros Hinv H. destruct ev as [c|label|label status c|label c|ms| |addrs cs]; cbn [step] in H.
+  - (* EvSend *)
+    destruct Hinv as [Hwf Hlab Hpi Htr Hns Hcnt Htx]. destruct Hlab as (Hnd & Hlt).
+    destruct (Nat.eqb_spec (length (ch_servers ch)) 0) as [He|Hne].
+    + injection H as <- <-. exists bm. split.
+      * cbn [bmon_run bmon_step]. replace (ARES_ENOSERVER =? ARES_SUCCESS) with false by reflexivity.
+        replace (ARES_ENOSERVER =? ARES_ECANCELLED) with false by reflexivity.
+        replace (ARES_ENOSERVER =? ARES_EDESTRUCTION) with false by reflexivity. cbn [orb].
+        rewrite Hns, He. destruct (Z.leb_spec (Z.of_nat 0 * b_tries bm) (Z.of_nat (count_occ Nat.eq_dec (b_txs bm) (ch_next_label ch)))); [reflexivity|lia].
+      * constructor; cbn [ch_servers ch_inflight ch_next_label ch_tries bump_label]; try assumption.
+        -- split; [exact Hnd|]. intros a Ha. cbn [ch_inflight ch_next_label bump_label] in Ha |- *. specialize (Hlt a Ha). lia.
+        -- intros l Hl. specialize (Htx l Hl). lia.
+    + assert (labels_ok (bump_label ch)) as Hlab1 by (split; [exact Hnd|intros a Ha; cbn [ch_inflight ch_next_label bump_label] in Ha |- *; specialize (Hlt a Ha); lia]).
+      destruct (fresh_inv bm (bump_label ch) None (ch_next_label ch) 0 ARES_SUCCESS c ch' obs Hwf Hlab1 Hpi Htr Hns Hcnt)
+        as (bm' & Hrun & Hwf' & Hlab' & Hpi' & Htr' & Hns' & Hcnt' & Htx' & _).
+      * intros l Hl. cbn. specialize (Htx l Hl). lia.
+      * cbn. lia.
+      * intros Hin. apply in_map_iff in Hin. destruct Hin as (z & Hz & Hzin). specialize (Hlt z Hzin). cbn in Hzin. lia.
+      * rewrite (count_occ_fresh _ _ Htx). reflexivity.
+      * exact H.
+      * exists bm'. split; [exact Hrun|constructor; assumption].
+  - (* EvAnswer *)
+    destruct (find_attempt label (ch_inflight ch)) as [a|] eqn:Hfa; [|discriminate].
+    injection H as <- <-. destruct (find_attempt_some _ _ _ Hfa) as (Hain & Hal). subst label.
+    destruct Hinv as [Hwf Hlab Hpi Htr Hns Hcnt Htx].
+    destruct (labels_ok_remove ch (at_label a) Hlab) as (Hlab0 & _).
+    destruct (set_good_spec (at_server a) (ch_servers ch) Hwf) as (Hwf1 & Hoth & Hsame & Hnone).
+    exists bm. split.
+    + rewrite bmon_run_app. cbn [ch_servers set_inflight].
+      destruct (find_addr (at_server a) (ch_servers ch)); destruct (at_probe a); reflexivity.
+    + pose proof (clear_probe_key (at_server a) (server_set_good (at_server a) (ch_servers ch))) as Hck.
+      constructor; cbn [ch_servers ch_inflight ch_next_label ch_tries set_servers set_inflight]; try assumption.
+      * eapply wf_key; [symmetry; exact Hck|exact Hwf1].
+      * intros b s Hfb Hpb _. cbn [ch_servers ch_inflight set_servers set_inflight] in Hfb |- *.
+        rewrite clear_probe_find in Hfb.
+        destruct (find_addr b (server_set_good (at_server a) (ch_servers ch))) as [s1|] eqn:Hf1; [|discriminate].
+        injection Hfb as <-. destruct (Z.eqb_spec b (at_server a)) as [->|Hb]; [discriminate|].
+        rewrite (Hoth b Hb) in Hf1.
+        destruct (Hpi b s1 Hf1 Hpb ltac:(discriminate)) as (x & Hx & Hxp & Hxs).
+        exists x. split; [|split; assumption]. apply witness_survives; try assumption. intros ->. congruence.
+      * rewrite clear_probe_length, set_good_length. exact Hns.
+      * intros x Hx Hpx. apply Hcnt; [eapply remove_attempt_in; exact Hx|exact Hpx].
+  - (* EvRefuse *)
+    destruct (find_attempt label (ch_inflight ch)) as [a|] eqn:Hfa; [|discriminate].
+    destruct (find_attempt_some _ _ _ Hfa) as (Hain & _). eapply fail_attempt_inv; eassumption.
+  - (* EvTimeout *)
+    destruct (find_attempt label (ch_inflight ch)) as [a|] eqn:Hfa; [|discriminate].
+    destruct (find_attempt_some _ _ _ Hfa) as (Hain & _). eapply fail_attempt_inv; eassumption.
+  - (* EvAdvance *)
+    destruct (c_timeadd ms (fst (ch_now ch)) (snd (ch_now ch))) as [t| |]; cbn [bind] in H; try discriminate.
+    injection H as <- <-. exists bm. split; [reflexivity|]. destruct Hinv. constructor; assumption.
+  - (* EvCancel *)
+    injection H as <- <-. destruct Hinv as [Hwf Hlab Hpi Htr Hns Hcnt Htx].
+    pose proof (fold_clear_probe_key (ch_inflight ch) (ch_servers ch)) as Hck.
+    exists bm. split.
+    + induction (sort_by_label (filter (fun a => negb (at_probe a)) (ch_inflight ch))) as [|a r IHr]; [reflexivity|exact IHr].
+    + constructor; cbn [ch_servers ch_inflight ch_next_label ch_tries set_servers set_inflight]; try assumption.
+      * eapply wf_key; [symmetry; exact Hck|exact Hwf].
+      * split; [constructor|intros a []].
+      * intros b s Hfb Hpb _. cbn [ch_servers ch_inflight set_servers set_inflight] in Hfb |- *. exfalso.
+        rewrite fold_clear_find in Hfb. destruct (find_addr b (ch_servers ch)) as [s0|] eqn:Hf0; [|discriminate].
+        injection Hfb as <-.
+        destruct (existsb (fun a => at_probe a && (at_server a =? b)) (ch_inflight ch)) eqn:Hex; [discriminate|].
+        destruct (Hpi b s0 Hf0 Hpb ltac:(discriminate)) as (x & Hx & Hxp & Hxs).
+        assert (existsb (fun a => at_probe a && (at_server a =? b)) (ch_inflight ch) = true) as Ht.
+        { apply existsb_exists. exists x. split; [exact Hx|]. rewrite Hxp, Hxs, Z.eqb_refl. reflexivity. }
+        congruence.
+      * rewrite Hns. rewrite <- (map_length key (fold_left _ _ _)), Hck, map_length. reflexivity.
+      * intros a [].
+  - (* EvSetServers *)
+    destruct Hinv as [Hwf Hlab Hpi Htr Hns Hcnt Htx].
+    destruct (servers_update_wf (ch_servers ch) addrs Hwf) as (Hwfk & Hkv & Hperm).
+    set (keep := servers_update (ch_servers ch) addrs) in *.
+    set (vs := victims (servers_stale (ch_servers ch) addrs) (ch_inflight ch)) in *.
+    destruct (requeue_all (set_servers ch keep) vs cs 0) as [[ch2 o2]| |] eqn:Hrq; cbn [bind fst snd] in H; try discriminate.
+    injection H as <- <-.
+    set (bm1 := {| b_tries := b_tries bm; b_nsrv := length (dedup [] addrs); b_txs := b_txs bm |}).
+    assert (inv bm1 (set_servers ch keep)) as Hinv1.
+    { constructor; cbn [ch_servers ch_inflight ch_next_label ch_tries set_servers bm1 b_tries b_nsrv b_txs]; try assumption.
+      - intros b s Hfb Hpb _. cbn [ch_servers ch_inflight set_servers] in Hfb |- *.
+        unfold keep in Hfb. rewrite (servers_update_find _ _ _ Hwf) in Hfb.
+        destruct (carry_find_probe _ _ _ _ _ Hfb Hpb) as (o & Hfo & Hpo).
+        apply (Hpi b o Hfo Hpo). discriminate.
+      - rewrite <- (map_length sv_addr keep). apply Permutation_length. apply Permutation_sym. exact Hperm. }
+    destruct (dedup_nodup addrs []) as (Hndd & _).
+    destruct (update_loop_spec (dedup [] addrs) 0 (ch_servers ch) Hndd (wf_addr _ Hwf) (lt_sorted_le _ (wf_sorted _ Hwf)) (wf_range _ Hwf))
+      as (Hnd1 & _ & _ & _).
+    destruct (requeue_all_inv vs bm1 (set_servers ch keep) cs 0 ch2 o2 Hinv1) as (bm2 & Hrun & Hinv2).
+    + apply victims_nodup; [apply nodup_map_filter; exact Hnd1|apply Hlab].
+    + intros v Hv. destruct (victims_in _ _ _ Hv) as (Hvin & st & Hst & Hvs). split; [exact Hvin|].
+      cbn [ch_servers set_servers]. apply find_addr_none. intros Hin.
+      apply (Permutation_in _ Hperm) in Hin. apply dedup_in in Hin. destruct Hin as (Hin & _).
+      unfold servers_stale in Hst. apply filter_In in Hst. destruct Hst as (_ & Hcfg).
+      apply negb_true_iff in Hcfg. unfold configured in Hcfg.
+      assert (existsb (Z.eqb (sv_addr st)) addrs = true) as Ht by (apply existsb_eqb_in; rewrite <- Hvs; exact Hin). congruence.
+    + exact Hrq.
+    + exists bm2. split; [|exact Hinv2]. cbn [bmon_run bmon_step]. fold bm1. exact Hrun.
+Qed.
+
+Lemma run_inv : forall evs bm ch ch' obs,
+  inv bm ch -> run ch evs = Ok (ch', obs) -> exists bm', bmon_run bm obs = Some bm' /\ inv bm' ch'.
+Proof.
+  induction evs as [|e r IH]; intros bm ch ch' obs Hinv H.
+  - injection H as <- <-. exists bm. split; [reflexivity|exact Hinv].
+  - cbn [run] in H.
+    destruct (step ch e) as [[ch1 o1]| |] eqn:Hs; cbn [bind fst snd] in H; try discriminate.
+    destruct (run ch1 r) as [[ch2 o2]| |] eqn:Hr; cbn [bind fst snd] in H; try discriminate.
+    injection H as <- <-.
+    destruct (step_inv _ _ _ _ _ Hinv Hs) as (bm1 & Hrun1 & Hinv1).
+    destruct (IH _ _ _ _ Hinv1 Hr) as (bm2 & Hrun2 & Hinv2).
+    exists bm2. split; [|exact Hinv2]. rewrite bmon_run_app, Hrun1. exact Hrun2.
+Qed.
+
+Lemma init_inv addrs rotate tries chance delay now :
+  inv (bmon_init addrs tries) (init_chan addrs rotate tries chance delay now).
+Proof.
+  destruct (servers_update_wf [] addrs wf_nil) as (Hwf & _ & Hperm).
+  constructor; cbn [init_chan bmon_init ch_servers ch_inflight ch_next_label ch_tries b_tries b_nsrv b_txs].
+  - exact Hwf.
+  - split; [constructor|intros a []].
+  - intros b s Hfb Hpb _. exfalso. cbn [ch_servers init_chan] in Hfb.
+    rewrite (servers_update_find _ _ _ wf_nil) in Hfb.
+    destruct (carry_find_probe _ _ _ _ _ Hfb Hpb) as (o & Hfo & _). discriminate.
+  - reflexivity.
+  - rewrite <- (map_length sv_addr (servers_update [] addrs)). apply Permutation_length. apply Permutation_sym. exact Hperm.
+  - intros a [].
+  - intros l [].
+Qed.
+
+(* trace level: the budget monitor accepts every history *)
+Lemma budget_accepts addrs rotate tries chance delay now evs ch obs :
+  run (init_chan addrs rotate tries chance delay now) evs = Ok (ch, obs) ->
+  exists bm, bmon_run (bmon_init addrs tries) obs = Some bm /\ inv bm ch.
+Proof. intros H. exact (run_inv _ _ _ _ _ (init_inv addrs rotate tries chance delay now) H). Qed.
+
+(* ------------------------------------------------------------------------------------ *)
+(* Probe liveness (with fixes/C09-probe-pending-clear.patch)                              *)
+(* ------------------------------------------------------------------------------------ *)
+Lemma last_server_max : forall l s, StronglySorted ltP l -> In s l ->
+  exists t, last_server l = Some t /\ sv_fail s <= sv_fail t.
+Proof.
+  induction l as [|x r IH]; intros s Hs Hin; [destruct Hin|].
+  inversion Hs as [|? ? Hsr Hall]; subst. destruct r as [|y r'].
+  - destruct Hin as [->|[]]. exists s. split; [reflexivity|lia].
+  - cbn [last_server]. destruct Hin as [->|Hin].
+    + destruct (IH y Hsr (or_introl eq_refl)) as (t & Ht & Hle). exists t. split; [exact Ht|].
+      rewrite Forall_forall in Hall. pose proof (Hall y (or_introl eq_refl)) as Hxy. unfold ltP in Hxy.
+      apply srv_lt_spec in Hxy. lia.
+    + apply (IH s Hsr Hin).
+Qed.
+
+Lemma probe_due_in ch : forall l, probe_due ch l = Ok true -> exists s, In s l /\ 0 < sv_fail s.
+Proof.
+  induction l as [|s r IH]; intros H; [discriminate|]. cbn [probe_due] in H.
+  destruct ((0 <? sv_fail s) && negb (probe_in_flight ch (sv_addr s))) eqn:Hc.
+  - apply andb_true_iff in Hc. destruct Hc as (Hf & _). exists s. split; [left; reflexivity|apply Z.ltb_lt; exact Hf].
+  - destruct (IH H) as (t & Ht & Hft). exists t. split; [right; exact Ht|exact Hft].
+Qed.
+
+Lemma probe_due_target ch : forall l,
+  (forall s, In s l -> sv_probe s = true -> probe_in_flight ch (sv_addr s) = true) ->
+  probe_due ch l = Ok true -> find_probe_target (ch_now ch) l <> Ok None.
+Proof.
+  induction l as [|s r IH]; intros Hpi H; [discriminate|]. cbn [probe_due] in H. cbn [find_probe_target].
+  assert (forall t, In t r -> sv_probe t = true -> probe_in_flight ch (sv_addr t) = true) as Hpi'
+    by (intros t Ht; apply Hpi; right; exact Ht).
+  destruct (0 <? sv_fail s) eqn:Hf; cbn [andb] in H |- *.
+  - destruct (probe_in_flight ch (sv_addr s)) eqn:Hfl; cbn [negb] in H.
+    + destruct (negb (sv_probe s)).
+      * destruct (c_ares_timedout (fst (ch_now ch)) (fst (sv_retry s)) (snd (ch_now ch)) (snd (sv_retry s))) as [t| |];
+          cbn [bind]; try discriminate. destruct (negb (t =? 0)); [discriminate|apply IH; assumption].
+      * apply IH; assumption.
+    + assert (sv_probe s = false) as Hps.
+      { destruct (sv_probe s) eqn:E; [|reflexivity]. rewrite (Hpi s (or_introl eq_refl) E) in Hfl. discriminate. }
+      rewrite Hps. cbn [negb].
+      destruct (c_ares_timedout (fst (ch_now ch)) (fst (sv_retry s)) (snd (ch_now ch)) (snd (sv_retry s))) as [t| |];
+        cbn [bind] in H |- *; try discriminate.
+      destruct (negb (t =? 0)); [discriminate|apply IH; assumption].
+  - apply IH; assumption.
+Qed.
+
+(* C09_probe_liveness: in every reachable state, when the user's first attempt goes to a server
+   without failures, the draw says "probe", and some failed server is past its retry time with
+   no probe in flight, a probe copy IS transmitted *)
+Lemma probe_liveness bm ch c ch' obs su :
+  inv bm ch ->
+  choose_server (ch_rotate ch) (c_rot c) (ch_servers ch) = Some su -> sv_fail su = 0 ->
+  ch_chance ch <> 0 -> c_probe c mod ch_chance ch = 0 ->
+  probe_due ch (ch_servers ch) = Ok true ->
+  step ch (EvSend c) = Ok (ch', obs) ->
+  exists pl pa, In (OTx pl pa true) obs /\ pa <> sv_addr su.
+Proof.
+  intros [Hwf Hlab Hpi _ _ _ _] Hch Hf0 Hc0 Hr Hdue H. cbn [step] in H.
+  destruct (Nat.eqb_spec (length (ch_servers ch)) 0) as [He|Hne].
+  { destruct (ch_servers ch); [destruct (ch_rotate ch); discriminate|discriminate]. }
+  unfold send_fresh in H. cbn [ch_rotate ch_servers ch_chance ch_now bump_label] in H. rewrite Hch in H.
+  rewrite Hf0 in H. cbn [Z.eqb andb] in H.
+  destruct (probe_due_in ch _ Hdue) as (sf & Hsfin & Hsfpos).
+  destruct (last_server_max _ _ (wf_sorted _ Hwf) Hsfin) as (t & Hlast & Hle).
+  unfold ares_probe_failed_server in H. rewrite Hlast in H.
+  assert ((sv_fail t =? 0) = false) as E1 by (apply Z.eqb_neq; lia).
+  assert ((ch_chance ch =? 0) = false) as E2 by (apply Z.eqb_neq; exact Hc0).
+  rewrite E1, E2, Hr in H. cbn [orb Z.eqb negb] in H.
+  assert (forall s, In s (ch_servers ch) -> sv_probe s = true -> probe_in_flight ch (sv_addr s) = true) as Hpi2.
+  { intros s Hs Hp. destruct (Hpi (sv_addr s) s (find_addr_in_nodup _ _ (wf_addr _ Hwf) Hs) Hp ltac:(discriminate)) as (x & Hx & Hxp & Hxs).
+    unfold probe_in_flight. apply existsb_exists. exists x. split; [exact Hx|]. rewrite Hxp, Hxs, Z.eqb_refl. reflexivity. }
+  pose proof (probe_due_target ch _ Hpi2 Hdue) as Hnn.
+  destruct (find_probe_target (ch_now ch) (ch_servers ch)) as [q| |] eqn:Hq; cbn [bind] in H; try discriminate.
+  destruct q as [ps|]; [|congruence].
+  destruct (find_probe_target_some _ _ _ Hq) as (Hpsin & Hpspos & _).
+  assert (sv_addr ps <> sv_addr su) as Hne2.
+  { intros He. assert (In su (ch_servers ch)) as Hsuin.
+    { unfold choose_server in Hch. destruct (ch_rotate ch).
+      - apply (random_server_min _ _ _ Hwf Hch).
+      - destruct (ch_servers ch); [discriminate|]. injection Hch as <-. left. reflexivity. }
+    assert (ps = su) as -> by (eapply nodup_map_eq; [apply (wf_addr _ Hwf)|exact Hpsin|exact Hsuin|exact He]). lia. }
+  assert ((sv_addr ps =? sv_addr su) = false) as Hneb by (apply Z.eqb_neq; exact Hne2).
+  rewrite Hneb in H. cbn [bind] in H. injection H as <- <-.
+  eexists. eexists. split; [right; left; reflexivity|exact Hne2].
+Qed.
+
+Lemma probe_liveness_reachable addrs rotate tries chance delay now evs ch obs0 c ch' obs su :
+  run (init_chan addrs rotate tries chance delay now) evs = Ok (ch, obs0) ->
+  choose_server (ch_rotate ch) (c_rot c) (ch_servers ch) = Some su -> sv_fail su = 0 ->
+  ch_chance ch <> 0 -> c_probe c mod ch_chance ch = 0 ->
+  probe_due ch (ch_servers ch) = Ok true ->
+  step ch (EvSend c) = Ok (ch', obs) ->
+  exists pl pa, In (OTx pl pa true) obs /\ pa <> sv_addr su.
+Proof.
+  intros Hrun. destruct (budget_accepts _ _ _ _ _ _ _ _ _ Hrun) as (bm & _ & Hinv).
+  apply (probe_liveness bm). exact Hinv.
+Qed.
+
+(* non-vacuity: the history that starved the probe in the pinned code (query 0 times out on
+   server 1 and succeeds on 2; query 1 spawns the probe 2 of server 1; the probe times out; a
+   long time later query 3 is sent) now ends with a second probe *)
+Example probe_liveness_witness :
+  exists ch obs0 ch' , run (init_chan [1; 2] false 1 1 0 (100000, 0))
+      [EvSend draw0; EvTimeout 0 draw0; EvAnswer 0; EvSend draw0; EvAnswer 1; EvTimeout 2 draw0; EvAdvance 600000] = Ok (ch, obs0) /\
+    probe_due ch (ch_servers ch) = Ok true /\
+    step ch (EvSend draw0) = Ok (ch', [OTx 3 2 false; OTx 4 1 true]).
+Proof. eexists. eexists. eexists. split; [vm_compute; reflexivity|]. split; vm_compute; reflexivity. Qed.
 
 (* non-vacuity of the hypotheses used above: a reachable table with failures, a probe in
    flight, rotation over two best servers *)
